@@ -29,8 +29,8 @@ DAY = 86400
 TCP_PORT = 3333
 UDP_PORT = 4444
 
-HIT_STEPS = 60_000          # step horizon of one announce / one lookup in an honest network
-TERM_STEPS = 12_000         # step horizon of one lookup in the termination half
+HIT_STEPS = 8_000           # step horizon of one announce / one lookup in an honest network
+TERM_STEPS = 4_000          # step horizon of one lookup in the termination half
 TERM_VTIME = 3600.0         # virtual-time horizon of one lookup in the termination half
 
 
@@ -103,9 +103,11 @@ async def node_lookup(node, key, sink, replied_now):
                 sink.append((p.address, p.udp_port, p.node_id, (p.address, p.udp_port) in seen))
 
 
-def task_outcome(status, task):
+def task_outcome(status, task, lp=None):
     if status != 'done':
         task.cancel()
+        if lp is not None:             # let the cancellation unwind (finder shutdown) while the loop is still open
+            lp.run_until(task.done, max_steps=2000)
         return status, None
     if task.cancelled():
         return 'cancelled', None
@@ -155,7 +157,7 @@ def hit_case(net, ann, key, prefix=(), bound=0, alpha_name='full'):
     obs = {}
     t0 = lp.time()
     status, task = drive(net.nodes[ann].announce_blob(key.hex()))
-    st, exc = task_outcome(status, task)
+    st, exc = task_outcome(status, task, lp)
     stored = [idx_of(net, i) for i in task.result()] if st == 'done' else []
     ann_peer = (node_ip(ann), TCP_PORT)
     holding = []
@@ -174,14 +176,15 @@ def hit_case(net, ann, key, prefix=(), bound=0, alpha_name='full'):
         first_contacts = {(p.address, p.udp_port) for p in net.nodes[s].protocol.routing_table.find_close_peers(key)}
         lp.sent_log = []
         t1 = lp.time()
+        i1 = lp.iterations
         status, task = drive(value_lookup(net.nodes[s], key, sink))
-        st, exc = task_outcome(status, task)
+        st, exc = task_outcome(status, task, lp)
         me = net.nodes[s].protocol
         asked = {dst for (_, _, src, dst, pt) in lp.sent_log if pt == 0 and src == (me.external_ip, me.udp_port)}
         lp.sent_log = None
         found = sorted({(a, p) for a, p, _ in sink})
         obs['lookups'].append({'searcher': s, 'status': st, 'exc': exc, 'hit': ann_peer in found, 'found': found,
-                               'duration': round(lp.time() - t1, 3),
+                               'duration': round(lp.time() - t1, 3), 'iterations': lp.iterations - i1,
                                'beyond_shortlist': len(asked - first_contacts),
                                'invalid': [f for f in found if not is_valid_peer_address(*f)]})
     obs['deviations'] = devs
@@ -253,6 +256,8 @@ def note_hit(res, case, obs, fixed):
     if obs['handler_exceptions']:
         res.tally('datagram_handler_exceptions', obs['handler_exceptions'])
     res.setmax('max_lookup_virtual_seconds', max([lk['duration'] for lk in obs['lookups']] or [0]))
+    res.setmax('max_iterations_of_a_finished_lookup',
+               max([lk['iterations'] for lk in obs['lookups'] if lk['status'] == 'done'] or [0]))
 
 
 def replay_dict(case):
@@ -270,7 +275,7 @@ def expiry_case(net, plan):
     obs = {'announce': [], 'probes': []}
     for ann, hname, key in plan:
         status, task = lp.run_task(net.nodes[ann].announce_blob(key.hex()), max_steps=HIT_STEPS)
-        st, exc = task_outcome(status, task)
+        st, exc = task_outcome(status, task, lp)
         obs['announce'].append({'ann': ann, 'hash': hname, 'status': st, 'stored': len(task.result()) if st == 'done' else 0})
     stamps = sorted({ts for nd in net.nodes for lst in nd.protocol.data_store._data_store.values() for _, ts in lst})
     obs['stamps'] = stamps
@@ -286,7 +291,7 @@ def expiry_case(net, plan):
                 sink = []
                 t1 = lp.time()
                 status, task = lp.run_task(value_lookup(net.nodes[s], key, sink), max_steps=HIT_STEPS)
-                st, exc = task_outcome(status, task)
+                st, exc = task_outcome(status, task, lp)
                 obs['probes'].append({'at': label, 'ann': ann, 'hash': hname, 'searcher': s, 'status': st,
                                       'hit': (node_ip(ann), TCP_PORT) in {(a, p) for a, p, _ in sink},
                                       'duration': round(lp.time() - t1, 3)})
@@ -353,6 +358,11 @@ def dfs_parts(net, case, fixed, bound, alpha_name, part, parts, res, cap=None):
                 firsts.append(choices0[:i] + [alt])
     if part == 0:
         on_result(ch0, obs0)
+    if judge_hit(dict(case, choices=[]), obs0, fixed):
+        # the default schedule already violates (reported by part 0): deviations would only repeat it, and a
+        # non-terminating default execution would make every one of its endless steps a branching point
+        res.tally('deviation_dfs_skipped_default_execution_already_violating')
+        return 0
     capped = False
     for j, pre in enumerate(firsts):
         if j % parts != part:
@@ -484,7 +494,7 @@ def paging_case(net, count):
     sink = []
     lp.sent_log = []
     status, task = lp.run_task(value_lookup(net.nodes[1], key, sink), max_steps=HIT_STEPS)
-    st, exc = task_outcome(status, task)
+    st, exc = task_outcome(status, task, lp)
     pages = sum(1 for (_, _, src, dst, pt) in lp.sent_log if pt == 0 and src == node_addr(1) and dst == node_addr(0))
     lp.sent_log = None
     return {'count': count, 'stored_ok': sum(s.state == 'stored' for s in storers), 'held': len(held),
@@ -698,11 +708,12 @@ def term_case(net, searcher, assign, prefix=(), bound=0, alpha_name='lossy'):
         lp.sent_log = []
         t0 = lp.time()
         e0 = len(lp.dgram_errors)
+        i0 = lp.iterations
         coro = node_lookup(me, key, sink, lambda: lp.replied[my_addr]) if what == 'node' else value_lookup(me, key, sink)
         status, task = lp.run_task(coro, chooser=ch if bound else None, budget=bound - ch.cost(), alpha=alpha,
                                    max_steps=TERM_STEPS, horizon_t=t0 + TERM_VTIME,
                                    on_choice=lambda kind, k, cost: devs.append(kind))
-        st, exc = task_outcome(status, task)
+        st, exc = task_outcome(status, task, lp)
         reqs = [dst for (_, _, src, dst, pt) in lp.sent_log if pt == 0 and src == my_addr]
         lp.sent_log = None
         per_dst = {}
@@ -710,7 +721,7 @@ def term_case(net, searcher, assign, prefix=(), bound=0, alpha_name='lossy'):
             per_dst[d] = per_dst.get(d, 0) + 1
         rec = {'lookup': what, 'key': kname, 'status': st, 'exc': exc, 'duration': round(lp.time() - t0, 3),
                'contacted': len(per_dst), 'max_requests_to_one_endpoint': max(per_dst.values() or [0]),
-               'yielded': len(sink), 'handler_exceptions': len(lp.dgram_errors) - e0}
+               'yielded': len(sink), 'handler_exceptions': len(lp.dgram_errors) - e0, 'iterations': lp.iterations - i0}
         if what == 'node':
             rec['never_replied'] = sorted({(a, p) for a, p, _, ok in sink if not ok})
             rec['self'] = sorted({(a, p) for a, p, nid, _ in sink if nid == net.ids[searcher] or (a, p) == my_addr})
@@ -782,6 +793,7 @@ def note_term(res, case, obs):
         if r['lookup'] == 'node' and r['yielded']:
             res.witness('node_lookup_yielded_contacts')
         if r['status'] == 'done':
+            res.setmax('max_iterations_of_a_finished_lookup', r['iterations'])
             res.setmax('max_lookup_seconds_over_limit_ratio_x1000',
                        int(1000 * r['duration'] / ((r['contacted'] + 2) * RPC_TIMEOUT)))
     for d in obs['deviations']:
@@ -815,12 +827,15 @@ def work_term(item, res):
             res.error(f'C12 term: preparatory announce failed n={n}')
             return
         base = {'half': 'term', 'n': n, 'searcher': searcher, 'seed': seed}
+        wedged = set()
         for assign in item['assigns']:
             assign = tuple(assign)
             case = dict(base, assign=list(assign), choices=[])
             _, obs = fork_call(term_case, net, searcher, assign)
             note_term(res, case, obs)
             viol = judge_term(case, obs)
+            if any(r['status'] != 'done' and r['status'] != 'raised' for r in obs['lookups']):
+                wedged.add(assign)
             for sig, what in viol:
                 res.violation(sig, what, replay_dict(case))
             if viol or item.get('selfcheck'):
@@ -834,6 +849,11 @@ def work_term(item, res):
         bound = item.get('dfs_bound', 0)
         for assign in item.get('dfs_assigns', ()):
             assign = tuple(assign)
+            if assign in wedged:
+                # the default execution already never finishes (every datagram of an endless exchange would be a
+                # choice point): reported above, nothing to add by losing datagrams
+                res.tally('loss_dfs_skipped_default_execution_already_nonterminating')
+                continue
             last = {}
 
             def run(ch):
@@ -850,7 +870,7 @@ def work_term(item, res):
                 for sig, what in judge_term(c, obs):
                     res.violation(sig, what, replay_dict(c))
 
-            r = dfs_deviation(run, bound=bound, on_result=on_result)
+            r = dfs_deviation(run, bound=bound, on_result=on_result, max_executions=20000)
             if r['capped']:
                 res.count('capped')
             if last:
@@ -918,7 +938,7 @@ def dfs_scope(tier):
                 for h in HASH_NAMES:
                     add(2, order, 0.0, ann, h, 1, 'full')
         for order in join_orders(3):
-            for ann in range(3):
+            for ann in (0, 2):
                 add(3, order, 0.0, ann, 'far', 1, 'full')
         for order in (join_orders(4)[0], join_orders(4)[-1]):
             for ann in (0, 3):
